@@ -288,28 +288,31 @@ def is_lt(i, fr, st, pc, a, t, fn, r):
     v = a[0]
     if isinstance(v, Agg):
         return _ret(i, st, pc, wbool(v.variant == 0))
+    if isinstance(v, Opaque) and v.kind == "lexcmp":
+        return _ret(i, st, pc, wtop(1))
     raise Undecided("is_lt on %r" % (v,))
 
 
 def iterator_cmp(i, fr, st, pc, a, t, fn, r):
-    """lexicographic comparison of two iterators over integer references; concrete data only.
-    Symbolic data is handled by rule C08 on the *views* (see rules), so here we only record them."""
+    """lexicographic comparison of two iterators over integer references.  Concrete data gives a
+    concrete Ordering; symbolic data gives the summary Opaque('lexcmp', (left seq, right seq)):
+    "lexicographic order of these two word sequences, words compared as unsigned integers"."""
     ia, ib = a
-    i.last_cmp_views = (ia, ib)
+    la, lb = [], []
     while True:
         ia, x = iter_next(i, st, ia)
-        ib, y = iter_next(i, st, ib)
-        if x is None and y is None:
-            return _ret(i, st, pc, ordering(0))
         if x is None:
-            return _ret(i, st, pc, ordering(-1))
+            break
+        la.append(load_items(i, st, x))
+    while True:
+        ib, y = iter_next(i, st, ib)
         if y is None:
-            return _ret(i, st, pc, ordering(1))
-        vx, vy = load_items(i, st, x), load_items(i, st, y)
-        if vx.val is None or vy.val is None:
-            raise Undecided("symbolic Iterator::cmp")
-        if vx.val != vy.val:
-            return _ret(i, st, pc, ordering(-1 if vx.val < vy.val else 1))
+            break
+        lb.append(load_items(i, st, y))
+    if all(isinstance(v, W) and v.val is not None for v in la + lb):
+        ka, kb = [v.val for v in la], [v.val for v in lb]
+        return _ret(i, st, pc, ordering((ka > kb) - (ka < kb)))
+    return _ret(i, st, pc, Opaque("lexcmp", (tuple(la), tuple(lb))))
 
 
 def thread_rng(i, fr, st, pc, a, t, fn, r):
@@ -424,6 +427,10 @@ TABLE = {
     "<std::boxed::Box<T, A> as std::convert::AsRef<T>>::as_ref": box_as_slice,
     "std::array::<impl std::convert::AsMut<[T]> for [T; N]>::as_mut": array_as_slice,
     "std::array::<impl std::convert::AsRef<[T]> for [T; N]>::as_ref": array_as_slice,
+    "<std::vec::Vec<T, A> as std::convert::AsMut<[T]>>::as_mut": box_as_slice,
+    "<std::vec::Vec<T, A> as std::ops::Deref>::deref": box_as_slice,
+    "<std::vec::Vec<T, A> as std::ops::DerefMut>::deref_mut": box_as_slice,
+    "std::vec::Vec::<T, A>::as_slice": box_as_slice,
     "core::slice::<impl [T]>::len": slice_len,
     "core::slice::<impl [T]>::iter": slice_iter,
     "core::slice::<impl [T]>::iter_mut": slice_iter_mut,
